@@ -54,6 +54,7 @@ ASSUMPTIONS = [
     "F5 excluded: a ~ with a fragment operand is not rendered under the runtime-flag mode",
 ]
 
+ADDR = re.compile(r" at 0x[0-9a-fA-F]+")
 UNESC = re.compile(r"&(amp|lt|gt|#34|#39);")
 _UNMAP = {"amp": "&", "lt": "<", "gt": ">", "#34": '"', "#39": "'"}
 
@@ -75,6 +76,8 @@ def _compare(where, on, off, sources):
     if non != noff:
         raise core.Violation("%s: autoescape on ended with %s (%s), off with %s (%s)\non : %r\noff: %r\nsources: %s"
                              % (where, non, eon, noff, eoff, ton[:400], toff[:400], str(sources)[:1500]))
+    # repr of iterators / objects carries an address (e.g. <reversed object at 0x...>): normalised on both sides
+    ton, toff = ADDR.sub(" at 0x", ton), ADDR.sub(" at 0x", toff)
     got = unescape5(ton)
     if got != toff:
         i = next((j for j in range(min(len(got), len(toff))) if got[j] != toff[j]), min(len(got), len(toff)))
@@ -393,11 +396,11 @@ def shards(tier):
 
 def run_shard(spec, ctx):
     rec = core.Rec()
-    core.hyp_shard(esc_cases(ctx.pick(14, 20)), check_case, ctx, ctx.pick(450, 6000), rec=rec, tag="esc")
+    core.hyp_shard(esc_cases(ctx.pick(14, 20)), check_case, ctx, c15.scale(ctx.pick(450, 6000)), rec=rec, tag="esc")
     if not rec.violations:
-        core.hyp_shard(stmt_cases(not ctx.quick), check_case, ctx, ctx.pick(500, 8000), rec=rec, tag="stmt")
+        core.hyp_shard(stmt_cases(not ctx.quick), check_case, ctx, c15.scale(ctx.pick(500, 8000)), rec=rec, tag="stmt")
     if not rec.violations:
-        core.hyp_shard(tset_cases(not ctx.quick), check_case, ctx, ctx.pick(300, 5000), rec=rec, tag="tset")
+        core.hyp_shard(tset_cases(not ctx.quick), check_case, ctx, c15.scale(ctx.pick(300, 5000)), rec=rec, tag="tset")
     return rec
 
 
